@@ -102,6 +102,16 @@ func runTx1(c *core.Ctx) {
 			d, cl = df, f
 		}
 	})
+	// the other common spelling: a deferred Rollback (unconditional, or on the named result) and an
+	// explicit Commit whose error is the result on every successful way out
+	if d == nil || slot == nil || len(callsNamed(cl, "(*database/sql.Tx).Commit")) == 0 {
+		if dpos, problems, ok := tx1Explicit(c, fn, begin, slot); ok {
+			c.Check(len(problems) == 0, nil, fname(c, fn), "defer commit-or-rollback", P.Pos(dpos),
+				"a Rollback is deferred right after BeginTx succeeds, before any statement; every way out either returns the error of the one explicit Commit or returns a non-nil error without having committed",
+				strings.Join(problems, "; ")+": after a failure at some statement the database does not answer as before the batch")
+			return
+		}
+	}
 	if d == nil || slot == nil {
 		c.Bad(nil, fname(c, fn), "defer commit-or-rollback", P.Pos(begin.Pos()), "no deferred closure that commits or rolls back the transaction (or the error result is not a named result the closure can see): a failing batch is left open or half-applied")
 		return
@@ -286,7 +296,7 @@ func runTx3(c *core.Ctx) {
 		if !good {
 			for _, rb := range an.ReturnBlocks(host) {
 				rv := an.ReturnValues(an.LastInstr(rb).(*ssa.Return))
-				if len(rv) > 0 && (rv[len(rv)-1] == errV) {
+				if len(rv) > 0 && (rv[len(rv)-1] == errV || blockLocal(rv[len(rv)-1]) == errV) {
 					good = true
 				}
 			}
@@ -685,4 +695,148 @@ func runBatchAll(c *core.Ctx) {
 	c.CountPaths(len(paths))
 	c.Check(len(bad) == 0 && nskip > 0, nil, fname(c, fn), "skips", P.Pos(fn.Pos()), fmt.Sprintf("all %d ways an event contributes no rows: it has no storage key, or a row builder failed", nskip),
 		"an event of the batch is skipped for another reason ("+strings.Join(bad, " | ")+"): a later version of an address in the same batch never reaches the upsert")
+}
+
+// tx1Explicit: the transaction protocol spelled with an explicit Commit:
+//
+//	tx, err := db.BeginTx(…); defer tx.Rollback()   // or: defer func() { if err != nil { tx.Rollback() } }()
+//	…
+//	return tx.Commit()                              // or: err = tx.Commit(); return err
+//
+// ok=false when the function has no deferred Rollback of this transaction or
+// no explicit Commit (the idiom does not apply).
+func tx1Explicit(c *core.Ctx, fn *ssa.Function, begin *ssa.Call, slot *ssa.Alloc) (pos token.Pos, problems []string, ok bool) {
+	P := c.P
+	isTx := func(v ssa.Value) bool {
+		e, isE := an.LoadedValue(resolveFree(v)).(*ssa.Extract)
+		return isE && e.Tuple == ssa.Value(begin) && e.Index == 0
+	}
+	var d *ssa.Defer
+	conditional := false // the deferred Rollback runs only when the named result is non-nil
+	an.Instrs(fn, func(in ssa.Instruction) {
+		df, isD := in.(*ssa.Defer)
+		if !isD || d != nil {
+			return
+		}
+		if an.CalleeName(&df.Call) == "(*database/sql.Tx).Rollback" && isTx(df.Call.Args[0]) {
+			d = df
+			return
+		}
+		mc, isMC := df.Call.Value.(*ssa.MakeClosure)
+		if !isMC {
+			return
+		}
+		cl := mc.Fn.(*ssa.Function)
+		for _, call := range callsNamed(cl, "(*database/sql.Tx).Rollback") {
+			if !isTx(call.Call.Args[0]) {
+				continue
+			}
+			gs := an.Guards(cl, call.Block())
+			switch {
+			case len(gs) == 0:
+				d = df
+			case len(gs) == 1 && slot != nil:
+				if b, isB := gs[0].V.(*ssa.BinOp); isB && an.IsNilConst(b.Y) && (b.Op == token.NEQ) == gs[0].True {
+					if u, isU := b.X.(*ssa.UnOp); isU && an.ResolveAlloc(u.X) == slot {
+						d, conditional = df, true
+					}
+				}
+			}
+		}
+	})
+	var commits []*ssa.Call
+	for _, call := range callsNamed(fn, "(*database/sql.Tx).Commit") {
+		if isTx(call.Call.Args[0]) {
+			commits = append(commits, call)
+		}
+	}
+	if d == nil || len(commits) == 0 {
+		return token.NoPos, nil, false
+	}
+	pos, ok = d.Pos(), true
+	if !an.InstrDominates(begin, d) {
+		problems = append(problems, "the defer is not dominated by BeginTx")
+	}
+	an.Instrs(fn, func(in ssa.Instruction) {
+		ci, isCI := in.(ssa.CallInstruction)
+		if !isCI || in == ssa.Instruction(d) {
+			return
+		}
+		n := an.CalleeName(ci.Common())
+		if (isSQLMethod(n, "Tx") || isSQLMethod(n, "Stmt")) && !an.InstrDominates(d, in) {
+			problems = append(problems, n+" at "+P.Pos(in.Pos())+" runs before the defer is registered")
+		}
+	})
+	if len(commits) != 1 {
+		problems = append(problems, fmt.Sprintf("%d Commit calls", len(commits)))
+		return
+	}
+	commit := commits[0]
+	if an.InLoop(commit.Block()) {
+		problems = append(problems, "Commit inside a loop")
+	}
+	nonNil := func(rb *ssa.BasicBlock, v ssa.Value) bool {
+		v = blockLocal(v)
+		if mi, isMI := v.(*ssa.MakeInterface); isMI {
+			v = mi.X
+		}
+		if call, isCall := v.(*ssa.Call); isCall {
+			switch an.CalleeName(&call.Call) {
+			case "fmt.Errorf", "errors.New":
+				return true
+			}
+		}
+		for _, g := range an.Guards(fn, rb) {
+			if b, isB := g.V.(*ssa.BinOp); isB && an.IsNilConst(b.Y) && (b.Op == token.NEQ) == g.True && (b.X == v || blockLocal(b.X) == v) {
+				return true
+			}
+		}
+		return false
+	}
+	for _, rb := range an.ReturnBlocks(fn) {
+		if !(d.Block() == rb || d.Block().Dominates(rb)) {
+			continue // before the transaction exists
+		}
+		rv := an.ReturnValues(an.LastInstr(rb).(*ssa.Return))
+		last := rv[len(rv)-1]
+		afterCommit := commit.Block() == rb || commit.Block().Dominates(rb)
+		mayFollowCommit := afterCommit || an.Reachable(commit.Block(), rb, nil, nil)
+		switch {
+		case afterCommit:
+			// the result is Commit's error, or nil behind "Commit's error == nil", or a non-nil wrap of it
+			v := blockLocal(last)
+			if v == ssa.Value(commit) {
+				continue
+			}
+			if an.IsNilConst(v) {
+				okNil := false
+				for _, g := range an.Guards(fn, rb) {
+					if b, isB := g.V.(*ssa.BinOp); isB && an.IsNilConst(b.Y) && (b.Op == token.EQL) == g.True && (b.X == ssa.Value(commit) || blockLocal(b.X) == ssa.Value(commit)) {
+						okNil = true
+					}
+				}
+				if okNil {
+					continue
+				}
+				problems = append(problems, "success is reported at "+P.Pos(an.LastInstr(rb).Pos())+" without Commit's error having been tested")
+				continue
+			}
+			if nonNil(rb, last) {
+				continue
+			}
+			problems = append(problems, "the result after Commit at "+P.Pos(an.LastInstr(rb).Pos())+" is not Commit's error")
+		case mayFollowCommit:
+			problems = append(problems, "a return at "+P.Pos(an.LastInstr(rb).Pos())+" is reached both with and without the Commit")
+		default:
+			// not committed: the batch must be reported as failed (and, with a conditional rollback, that is what triggers it)
+			if !nonNil(rb, last) {
+				what := "reports success"
+				if conditional {
+					what = "leaves the named result nil, so the deferred Rollback does not run"
+				}
+				problems = append(problems, "a way out without Commit at "+P.Pos(an.LastInstr(rb).Pos())+" "+what)
+			}
+		}
+	}
+	return
 }
